@@ -59,6 +59,7 @@ package gohlslib
 //@   witness s.nextSegmentID
 //@   witness len(s.segments)
 //@   witness len(asF(s.nextSegment).parts)
+//@   witness len(asF(s.segments[len(s.segments)-1]).parts)
 //@ end
 
 // ---------------------------------------------------------------------------------------
@@ -73,6 +74,7 @@ package gohlslib
 
 //@ func findSegmentWithID
 //@   props C11 C13
+//@   witness len(segments)
 //@   ensures (id - seqNo < 0 || id - seqNo >= len(segments)) ==> (result0 == nil && result1 == 0 && result2 == 0)
 //@   ensures (id - seqNo >= 0 && id - seqNo < len(segments)) ==> (result1 == id - seqNo && result0 == segments[id - seqNo] && result2 == len(segments) - (id - seqNo))
 //@ end
